@@ -389,12 +389,10 @@ def run_fuzz_job(prop, tier, seed, job, jidx):
     for d in (out, art, corpus):
         os.makedirs(d, exist_ok=True)
     # committed starting corpus (inputs only; they are re-executed and re-judged like any other)
-    seed_corpus = os.path.join(VERIF, "fuzz_corpus", prop)
-    if os.path.isdir(seed_corpus):
-        for f in os.listdir(seed_corpus):
-            dst = os.path.join(corpus, f)
-            if not os.path.exists(dst):
-                shutil.copy(os.path.join(seed_corpus, f), dst)
+    seed_corpus = os.path.join(VERIF, "fuzz_corpus", prop + ".tar.gz")
+    if os.path.exists(seed_corpus) and not os.path.exists(corpus + ".seeded"):
+        subprocess.run(["tar", "-C", corpus, "-xzf", seed_corpus], check=False)
+        open(corpus + ".seeded", "w").close()
     env = base_env()
     env["RVMON_FUZZ_PROP"] = prop
     env["RVMON_FUZZ_OUT"] = out
